@@ -1,0 +1,117 @@
+//go:build verif
+
+package engine
+
+// Facade extension used by the verification harness (/verif), property C08: run an InfluxQL
+// SELECT against one stand-alone shard through the single-node query path (see
+// verif_export_c09.go) with the execution knobs that must not change an answer: the
+// executor's chunk size, the maximum parallelism and the size of the response chunks.
+// Nothing here is compiled without the `verif` build tag.
+
+import (
+	"context"
+	"fmt"
+	"runtime/debug"
+	"strings"
+
+	"github.com/openGemini/openGemini/engine/executor"
+	"github.com/openGemini/openGemini/lib/index"
+	"github.com/openGemini/openGemini/lib/statisticsPusher/statistics"
+	"github.com/openGemini/openGemini/lib/util/lifted/influx/influxql"
+	"github.com/openGemini/openGemini/lib/util/lifted/influx/query"
+)
+
+// VerifQueryOptions are the knobs of one query execution.
+type VerifQueryOptions struct {
+	ChunkSize   int // rows per executor chunk (query.SelectOptions.ChunkSize); <= 0: 1024
+	MaxParallel int // query.SelectOptions.MaxQueryParallel; 0: number of CPUs
+	ChunkedSize int // rows per response chunk (chunked=true&chunk_size=n); <= 0: not chunked
+}
+
+// VerifPart is one models.Row as the sender emitted it (a series may come in several parts
+// when the response is chunked).
+type VerifPart struct {
+	VerifSeries
+	Partial bool
+}
+
+// QueryWith is Query with explicit execution options; the parts are returned as sent.
+func (v *VerifShard) QueryWith(q string, fields map[string]influxql.DataType, tags []string, o VerifQueryOptions) (out []VerifPart, err error) {
+	verifQueryMu.Lock()
+	defer verifQueryMu.Unlock()
+	defer func() {
+		if r := recover(); r != nil {
+			err = fmt.Errorf("panic while querying: %v\n%s", r, debug.Stack())
+		}
+	}()
+	verifLocalStoreOnce.Do(func() {
+		executor.SetLocalStorageForQuery(verifLocalStore)
+		executor.InitLocalStoreTemplatePlan()
+	})
+	verifLocalStore.sh = v.sh
+
+	p := influxql.NewParser(strings.NewReader(q))
+	defer p.Release()
+	yy := influxql.NewYyParser(p.GetScanner(), p.GetPara())
+	yy.ParseTokens()
+	pq, err := yy.GetQuery()
+	if err != nil {
+		return nil, fmt.Errorf("parse: %w", err)
+	}
+	if len(pq.Statements) != 1 {
+		return nil, fmt.Errorf("expected one statement")
+	}
+	stmt, ok := pq.Statements[0].(*influxql.SelectStatement)
+	if !ok {
+		return nil, fmt.Errorf("not a select statement")
+	}
+	stmt.OmitTime = true
+	g := &verifShardGroup{fields: fields, tags: map[string]struct{}{}}
+	for _, t := range tags {
+		g.tags[t] = struct{}{}
+	}
+	if o.ChunkSize <= 0 {
+		o.ChunkSize = 1024
+	}
+	rc := make(chan query.RowsChan)
+	sopt := query.SelectOptions{ChunkSize: o.ChunkSize, ChunkedSize: 1 << 30, RowsChan: rc, MaxQueryParallel: o.MaxParallel}
+	if o.ChunkedSize > 0 {
+		sopt.Chunked, sopt.ChunkedSize = true, o.ChunkedSize
+	}
+	ctx := context.WithValue(context.Background(), query.QueryDurationKey, (*statistics.SQLSlowQueryStatistics)(nil))
+	ctx = context.WithValue(ctx, query.QueryIDKey, []uint64{1})
+	ex, err := executor.Select(ctx, stmt, g, sopt)
+	if err != nil {
+		return nil, err
+	}
+	if ex == nil {
+		return nil, nil
+	}
+	pe, ok := ex.(*executor.PipelineExecutor)
+	if !ok {
+		return nil, fmt.Errorf("unexpected executor %T", ex)
+	}
+	ec := make(chan error, 1)
+	go func() {
+		defer close(rc)
+		defer func() {
+			if r := recover(); r != nil {
+				ec <- fmt.Errorf("panic in executor: %v\n%s", r, debug.Stack())
+			}
+		}()
+		var st int32
+		c := context.WithValue(context.Background(), index.QueryIndexState, &st)
+		ec <- pe.ExecuteExecutor(c)
+	}()
+	for r := range rc {
+		for _, row := range r.Rows {
+			s := VerifPart{VerifSeries: VerifSeries{Name: row.Name, Tags: row.Tags, Columns: row.Columns}, Partial: row.Partial}
+			s.Values = append(s.Values, row.Values...)
+			out = append(out, s)
+		}
+	}
+	if e := <-ec; e != nil {
+		return out, e
+	}
+	return out, nil
+}
